@@ -41,6 +41,7 @@ def replay_history(ctx: Ctx, rec: dict, nops: int):
     problems = []
     # every third history is replayed far from the origin with small moves
     meshlib.place(meshlib.FAR if rec.get("far") else meshlib.NEAR)
+    meshlib.PLACEMENT["variant"] = rec.get("variant", "A")
     ops = {o: make_op(o, nops, [base_pos(o, k) for k in range(1, 9)]) for o in range(1, nops + 1)}
     mesh = new_mesh()
     w = 0
@@ -76,7 +77,7 @@ def replay_history(ctx: Ctx, rec: dict, nops: int):
                 ctxt = "+".join(sorted(set(since))) or "nothing"
                 if "error" in ref:
                     # a model that cannot be graded (the operation that takes its cells from a neighbour stands alone)
-                    if ref["error"] != "UndefinedGradingsError":
+                    if ref["error"] not in ("UndefinedGradingsError", "InconsistentGradingsError"):
                         raise MachineryError(f"fresh model cannot be written: {ref}")
                     if got.get("error") != ref["error"]:
                         problems.append((f"write-differs:after:{ctxt}:outcome", f"write #{w} ended with {got.get('error', 'a file')}, "
@@ -111,18 +112,25 @@ def run(ctx: Ctx) -> None:
     ctx.rule = ("histories = behaviours of Mesh.tla ending in write (BFS to the length bound, plus -simulate for longer ones); "
                 "non-trivial = contains at least one of clear/backport/delete/move/second write; distinct by call sequence")
     rng = random.Random(ctx.seed + 12)
+    # (the third quick plan: every history of three operations that is write / assemble, one or two moves, write - the short
+    #  histories in which gradings have to follow the vertices - rather than leaving them to the simulated behaviours)
+    geometry_only = {"add", "write", "move", "assemble"}
     if ctx.tier == "quick":
-        plans = [(2, 4, 2, None, None, 500), (3, 9, 3, "num=400", 12, 400)]
+        plans = [(2, 4, 2, None, None, 500, None), (3, 9, 3, "num=400", 12, 400, None), (3, 3, 2, None, None, 120, geometry_only)]
     else:
-        plans = [(2, 6, 3, None, None, 6000), (3, 6, 2, None, None, 6000), (3, 12, 4, "num=5000", 13, 5000)]
-    for (nops, maxlen, maxwrites, sim, depth, limit) in plans:
+        plans = [(2, 6, 3, None, None, 6000, None), (3, 6, 2, None, None, 6000, None), (3, 12, 4, "num=5000", 13, 5000, None),
+                 (3, 4, 2, None, None, 3000, geometry_only)]
+    for (nops, maxlen, maxwrites, sim, depth, limit, only) in plans:
         recs = mc_and_gen(ctx, nops, maxlen, maxwrites, simulate=sim, depth=depth, seed=ctx.seed + 1 if sim else None)
+        if only is not None:
+            recs = [r for r in recs if {c[0] for c in r["hist"]} <= only and any(c[0] == "move" for c in r["hist"])]
         if len(recs) > limit:
             rng.shuffle(recs)
             recs = recs[:limit]
             ctx.exhaustive = False
         for k, rec in enumerate(recs):
             rec["far"] = k % 3 == 2
+            rec["variant"] = "B" if (k % 2 == 1 or only is not None) else "A"
             names = {c[0] for c in rec["hist"]}
             nontrivial = bool(names & {"clear", "backport", "delete", "move"}) or [c[0] for c in rec["hist"]].count("write") > 1
             probs = replay_history(ctx, rec, nops)
@@ -130,7 +138,7 @@ def run(ctx: Ctx) -> None:
             if nontrivial:
                 ctx.nontrivial.add(str(rec["hist"]))
             for sig, what in probs:
-                ctx.violation(sig + (":far-from-origin" if rec["far"] else ""), what, {"nops": nops, "hist": rec["hist"], "writes": rec["writes"], "far": rec["far"]})
+                ctx.violation(sig + (":far-from-origin" if rec["far"] else ""), what, {"nops": nops, "hist": rec["hist"], "writes": rec["writes"], "far": rec["far"], "variant": rec["variant"]})
             ctx.sample({"nops": nops, "hist": rec["hist"]})
 
 
